@@ -18,7 +18,8 @@ EXPLANATION = (
     'blank conversions: every concrete class returns a non-blank value of its own kind, Blank against Blank has a base '
     'case (no unbounded mutual recursion); (C09.5) the six OP_* comparison wrappers apply their own operator to (left, '
     'right) in that order - a mirrored delegation is accepted only while no class has asymmetric overrides - and the four '
-    'ordering wrappers share one blank short-circuit.')
+    'ordering wrappers share one blank short-circuit.'
+    ' (C09.6) the whole comparison table - 13 representative values of all classes x 13 x six operators - computed on the real comparison methods (dunder dispatch, casts, blank conversion) against one total order, except text-left/non-text-right pairs (the known finding of C09.3); (C09.7) constant cells evaluate to the value class of their content ("" is a text, None a blank).')
 NOT_DECIDED = 'trichotomy / transitivity over concrete strings and floats'
 TRUSTED = ['tuple comparison semantics of Python for the (precedence, value) keys']
 
